@@ -980,6 +980,45 @@ def rule_triplet_basis_guard(repo, rep):
     rep.derived(R, key, site(f, target))
 
 
+def rule_basis_from_differences(repo, rep):
+  R = 'R-FORM:scml-basis-from-differences'
+  rep.rule(R, 'the triplet-difference basis is built from differences of the '
+           'two points of a pair (X[p[:, 0]] - X[p[:, 1]], either order): a '
+           'sum of the two rows would make the basis depend on the origin')
+  f = repo.get_func('scml._BaseSCML._generate_bases_dist_diff')
+  if f is None:
+    rep.unknown(R, 'scml._BaseSCML._generate_bases_dist_diff', '', 'vanished')
+    return
+  key = 'scml._BaseSCML._generate_bases_dist_diff:pair-differences'
+  xs = f.params()[2] if len(f.params()) >= 3 else 'X'
+  found = []
+  for n in ast.walk(f.node):
+    if isinstance(n, ast.BinOp) and isinstance(n.op, (ast.Sub, ast.Add)) and \
+            all(isinstance(o, ast.Subscript) and ast.unparse(o.value) == xs
+                for o in (n.left, n.right)):
+      def col(o):
+        sl = o.slice.elts[0] if isinstance(o.slice, ast.Tuple) else o.slice
+        if isinstance(sl, ast.Subscript) and isinstance(sl.slice, ast.Tuple) \
+                and len(sl.slice.elts) == 2 and \
+                isinstance(sl.slice.elts[1], ast.Constant):
+          return ast.unparse(sl.value), sl.slice.elts[1].value
+        return None, None
+      (b1, c1), (b2, c2) = col(n.left), col(n.right)
+      if b1 is not None and b1 == b2 and {c1, c2} == {0, 1}:
+        found.append(n)
+  if not found:
+    rep.unknown(R, key, site(f), 'difference of the two points of a pair not '
+                'found')
+    return
+  for n in found:
+    if isinstance(n.op, ast.Sub):
+      rep.derived(R, key, site(f, n))
+    else:
+      rep.refuted(R, key, site(f, n), 'the two points of a pair are ADDED '
+                  '(%s): the generated basis depends on the origin of the '
+                  'data' % ast.unparse(n))
+
+
 def check(repo, rep, tier):
   rule_weights_nonneg(repo, rep)
   rule_components_form(repo, rep)
@@ -988,6 +1027,7 @@ def check(repo, rep, tier):
   rule_update_formulas(repo, rep)
   rule_objective_and_distances(repo, rep)
   rule_triplet_basis_guard(repo, rep)
+  rule_basis_from_differences(repo, rep)
   # option paths executable (C03(7)) and RNG discipline (C17), SCML only
   before = len(rep.obs)
   fl = len(rep.floors)
